@@ -90,11 +90,36 @@ def operand_info(site):
     return out
 
 
-def check_generic(run, site, rule='R-EIN'):
+def is_complex_model_site(site):
+    """einsum sites of the models whose observations are complex by definition (complex Watson / Bingham / angular central Gaussian / circular Gaussian)"""
+    return site.fn.mod.name.rsplit('.', 1)[-1].startswith('complex_')
+
+
+def check_generic(run, site, rule='R-EIN', hermitian=None):
     """(b1) X / conj(X) pairs: the conjugated copy supplies the second free index;
+       (b2) for complex data (`hermitian`; default: the complex_* model files) a scatter / outer product of a tensor WITH ITSELF conjugates exactly one
+            of the two copies: x x^T is not Hermitian, its eigen-decomposition is not the one of the covariance;
        (b3) a full inner product of two different operands where one side is explicitly conjugated has exactly one conjugated side."""
     info = operand_info(site)
     n_checked = 0
+    if hermitian is None:
+        hermitian = is_complex_model_site(site)
+    if hermitian:
+        for sub, ins, out, ells in site.parsed:
+            if len(ins) != len(info):
+                continue
+            for i in range(len(info)):
+                for j in range(i + 1, len(info)):
+                    (bi, ci, _), (bj, cj, _) = info[i], info[j]
+                    if ci != cj or not same_value(bi, bj):
+                        continue
+                    fi = [c for c in ins[i] if c in out and c not in ins[j]]
+                    fj = [c for c in ins[j] if c in out and c not in ins[i]]
+                    if len(fi) == 1 and len(fj) == 1:
+                        n_checked += 1
+                        run.violation(rule, f'{site.fn.qual.split("::")[1]} {sub!r}: scatter of complex data conjugates one copy', site.loc,
+                                      f'{sub!r}: both copies of the same complex tensor are {"conjugated" if ci else "unconjugated"}: the result is x x^T, not the Hermitian '
+                                      f'outer product x x^H', construct=f'{rule}::{site.fn.qual}::hermitian-scatter')
     for sub, ins, out, ells in site.parsed:
         if len(ins) != len(info):
             run.unresolved(rule, f'{site.fn.qual.split("::")[1]} einsum {sub!r}', site.loc, 'operand count differs from subscript')
